@@ -1,1 +1,189 @@
-/-! Property theorems for C12 — placeholder until the property's model is built. -/
+import FcpptProofs.C12.Rewind
+import FcpptProofs.C12.Parsers
+/-!
+# C12 — the parse stream reports true line/column and rewinds exactly
+
+Model: `FcpptModel/Model/C12.lean` (istream state machine + `detail::stream`), spec:
+`FcpptModel/Spec/C12.lean` (`line`, `column`, the abstract index stream `astep`/`arun`).
+All theorems quantify over every text (any length, any characters), every history of
+`get_char` / `get_position` / `set_position(saved j)` (any length) and every read budget of the
+failure-injecting stream; nothing is bounded.
+-/
+namespace Fcppt.C12
+
+/-- **Refinement**: for every text, every read budget and every history, the observations of the
+implementation-level stream (flags, `tellg`/`seekg`, eof clearing, stored and restored location)
+are exactly those of the abstract stream of the documentation: an index `i`; reading yields
+`t[i]` and advances; a position is `(i, line i, column i)`; restoring a saved position sets the
+index; at the end of input and once the underlying stream has failed no character is produced. -/
+theorem run_refines (t : List Ch) (k : Option Nat) (ops : List Op) :
+    (run (HState.open t k) ops).2 = (arun t k AState.init ops).2 :=
+  (run_refines_rel ops (rel_open t k)).2
+
+/-- **Location invariant**: after every history the stored location is the true line and column
+of the current index, the index is inside the text, and every position handed out so far denotes
+an index of the text together with that index's true line and column. -/
+theorem location_inv (t : List Ch) (k : Option Nat) (ops : List Op) :
+    let x := (run (HState.open t k) ops).1
+    x.s.is.buf = t ∧ x.s.is.idx ≤ t.length ∧
+      x.s.loc = ⟨line t x.s.is.idx, column t x.s.is.idx⟩ ∧
+      ∀ p ∈ x.saved, ∃ i, i ≤ t.length ∧ p = ⟨(i : Int), some ⟨line t i, column t i⟩⟩ := by
+  intro x
+  have r := (run_refines_rel ops (rel_open t k)).1
+  refine ⟨r.buf, by rw [r.idx]; exact r.le, by rw [r.idx]; exact r.loc, ?_⟩
+  intro p hp
+  have hs : x.saved = _ := r.saved
+  rw [hs] at hp
+  obtain ⟨i, hi, rfl⟩ := List.mem_map.mp hp
+  exact ⟨i, r.savedLe i hi, rfl⟩
+
+/-- **A position is the offset of the next unread character, with its line and column**: in any
+state reached on a plain stream, `get_position` reports `(i, line i, column i)` for the current index
+`i`, and the read that follows returns exactly `t[i]` (nothing at the end of input). -/
+theorem position_denotes_next_unread (t : List Ch) (ops : List Op) :
+    let x := (run (HState.open t none) ops).1
+    let i := x.s.is.idx
+    (step x .pos).2 = .pos ⟨(i : Int), some ⟨line t i, column t i⟩⟩ ∧
+      (step (step x .pos).1 .get).2 = .ch t[i]? := by
+  intro x i
+  obtain ⟨a, r, d⟩ := Reach.rel (t := t) (h := x) ⟨ops, rfl⟩
+  obtain ⟨r1, e1⟩ := step_refines r .pos
+  obtain ⟨_, e2⟩ := step_refines r1 .get
+  have hi : i = a.i := r.idx
+  refine ⟨by rw [e1, hi]; simp [astep, d, posAt, locAt], ?_⟩
+  rw [e2, hi]
+  simp only [astep, d, Bool.false_eq_true, ↓reduceIte]
+  generalize t[a.i]? = o
+  cases o <;> rfl
+
+/-- **Exact rewind, state level**: if `get_position` in a reachable state `x1` returned `p`
+leaving the stream in state `s1`, then `set_position p` in *any* reachable state `x2` of the same
+text succeeds and puts the stream into exactly `s1` (buffer index, all three state bits, stored
+location).  Everything later is a function of that state, so all subsequent reads and positions
+are those observed when `p` was saved. -/
+theorem rewind_exact (t : List Ch) (x1 x2 : HState) (r1 : Reach t x1) (r2 : Reach t x2)
+    (s1 : Stream) (p : Pos) (hp : x1.s.getPosition = (s1, .ok p)) :
+    x2.s.setPosition p = (s1, .ok ()) := by
+  obtain ⟨a1, rel1, d1⟩ := r1.rel
+  obtain ⟨a2, rel2, d2⟩ := r2.rel
+  obtain ⟨s1', p', g1, _, g3⟩ := rewind_state rel1 rel2 d1 d2
+  rw [hp] at g1
+  obtain ⟨rfl, rfl⟩ : s1 = s1' ∧ p = p' := by simpa using g1
+  exact g3
+
+/-- `get_position` never fails on a plain stream (so `rewind_exact` is not vacuous). -/
+theorem getPosition_ok (t : List Ch) (x : HState) (r : Reach t x) :
+    ∃ s1 p, x.s.getPosition = (s1, .ok p) := by
+  obtain ⟨a, rel, d⟩ := r.rel
+  obtain ⟨s1, p, g1, _, _⟩ := rewind_state rel rel d d
+  exact ⟨s1, p, g1⟩
+
+/-- **Exact rewind, history level**: take any history `ops1`, save the position, run any history
+`ops2`, restore the saved position.  Then every continuation `ops3` (which may itself save and
+restore, and may restore anything saved up to and including that position) observes exactly what
+it observes when run directly after the position was saved. -/
+theorem rewind_exact_hist (t : List Ch) (ops1 ops2 ops3 : List Op) :
+    let x1 := (run (HState.open t none) (ops1 ++ [.pos])).1
+    let x2 := (run x1 (ops2 ++ [.set (x1.saved.length - 1)])).1
+    SetsBelow x1.saved.length ops3 → (run x2 ops3).2 = (run x1 ops3).2 :=
+  rewind_hist t ops1 ops2 ops3
+
+/-- **End of input never yields a character**, whatever the state bits are. -/
+theorem eof_never_char (s : Stream) (h : s.is.buf.length ≤ s.is.idx) (c : Ch) :
+    s.getChar.2 ≠ .ok (some c) :=
+  getChar_eof s h c
+
+/-- **A failed underlying stream never yields a character**: once `badbit` is set every operation
+throws the stream exception and changes nothing. -/
+theorem bad_never_char (s : Stream) (h : s.is.bad = true) :
+    s.getChar = (s, .error streamFailed) ∧ s.getPosition = (s, .error streamFailed) ∧
+      ∀ p, s.setPosition p = (s, .error streamFailed) := by
+  simp [Stream.getChar, Stream.getPosition, Stream.setPosition, h]
+
+/-- The read on which the underlying stream fails returns nothing and leaves the stream bad. -/
+theorem failing_read_never_char (s : Stream) (k : Nat) (c : Ch) (hg : s.is.good = true)
+    (hk : s.is.failAfter = some k) (hr : k ≤ s.is.reads) (hc : s.is.buf[s.is.idx]? = some c) :
+    s.getChar.2 = .ok none ∧ s.getChar.1.is.bad = true := by
+  obtain ⟨⟨buf, idx, eof, fail, bad, fa, reads⟩, loc⟩ := s
+  simp only at hk hr hc
+  subst hk
+  simp [IStream.good] at hg
+  obtain ⟨⟨rfl, rfl⟩, rfl⟩ := hg
+  simp [Stream.getChar, IStream.get, IStream.sentry, IStream.good, IStream.sbumpc, hc, hr]
+
+/-- Every character that is returned is the text's character at the current index; the stream was
+good, stays not-bad, and the read budget was not exhausted. -/
+theorem char_is_text {s s' : Stream} {c : Ch} (h : s.getChar = (s', .ok (some c))) :
+    s.is.good = true ∧ s.is.buf[s.is.idx]? = some c ∧ s'.is.idx = s.is.idx + 1 ∧ s'.is.bad = false ∧
+      s'.is.buf = s.is.buf ∧ ∀ k, s.is.failAfter = some k → s.is.reads < k :=
+  getChar_some h
+
+/-- A dead stream makes `fcppt::parse::parse` fail (the exception is caught by `phrase_parse`);
+it never succeeds with a character. -/
+theorem parse_bad_fails (s : Stream) (pred : Ch → Bool) (h : s.is.bad = true) :
+    s.parse pred = (s, .fail .exception) := by
+  simp [Stream.parse, Stream.charPred, Stream.getChar, h]
+
+/-- **Error location**: in any state reached on a plain stream with current index `i`,
+`literal` / `char_set` / `char_` (and the skippers of the same names; `pred` is the acceptance test)
+* at the end of input fail with the location-free "EOF" error,
+* on an accepted character succeed with it,
+* on a rejected character fail with an "Expected" error carrying the line and column of index
+  `i + 1` — immediately after the offending character —
+and in the last two cases the stream is left at index `i + 1` with that location stored. -/
+theorem expected_location (t : List Ch) (ops : List Op) (pred : Ch → Bool) :
+    let x := (run (HState.open t none) ops).1
+    let i := x.s.is.idx
+    match t[i]? with
+    | none => (x.s.charPred pred).2 = .ok (.fail .eof)
+    | some c =>
+      (x.s.charPred pred).2
+          = .ok (if pred c then .ok c else .fail (.expected (some ⟨line t (i + 1), column t (i + 1)⟩)))
+        ∧ (x.s.charPred pred).1.is.idx = i + 1
+        ∧ (x.s.charPred pred).1.loc = ⟨line t (i + 1), column t (i + 1)⟩ := by
+  intro x i
+  obtain ⟨a, r, d⟩ := Reach.rel (t := t) (h := x) ⟨ops, rfl⟩
+  have hi : i = a.i := r.idx
+  rw [hi]
+  exact charPred_spec r d pred
+
+/-- **The spec's column is the documented one** (`basic_stream_decl.hpp`): with `j` the 1-based
+index of the last newline among the first `i` characters (`j = 0` if there is none) the column is
+`i - j + 1`.  (`line` is literally "number of newlines before, plus one".) -/
+theorem column_doc (t : List Ch) (i : Nat) (hi : i ≤ t.length) :
+    ∃ j, j ≤ i ∧ column t i = i - j + 1 ∧ (j = 0 ∨ t[j - 1]? = some nl) ∧
+      ∀ m, j ≤ m → m < i → t[m]? ≠ some nl :=
+  column_doc_aux t i hi
+
+/-! ## Non-vacuity and concrete instances -/
+
+-- "xy\nz\n" (the text of test/parse/stream.cpp): read three characters, save, read to the end and
+-- beyond (eof and fail bits set), restore, read again
+example :
+    (run (HState.open [120, 121, 10, 122, 10] none)
+      [.get, .get, .get, .pos, .get, .get, .get, .get, .set 0, .pos, .get]).2
+    = [.ch (some 120), .ch (some 121), .ch (some 10), .pos ⟨3, some ⟨2, 1⟩⟩, .ch (some 122), .ch (some 10),
+       .ch none, .ch none, .ok, .pos ⟨3, some ⟨2, 1⟩⟩, .ch (some 122)] := by decide
+
+-- the hypotheses of rewind_exact_hist are met by a non-trivial continuation that itself rewinds
+example : SetsBelow 1 [Op.get, .pos, .set 0, .get] := by
+  intro op h j e; subst e; simp at h; omega
+
+-- the failing stream: budget 1, second read fails and yields nothing, afterwards exceptions
+example :
+    (run (HState.open [97, 98, 99] (some 1)) [.get, .pos, .get, .get, .pos, .set 0]).2
+    = [.ch (some 97), .pos ⟨1, some ⟨1, 2⟩⟩, .ch none, .exc, .exc, .exc] := by decide
+
+-- error location: "a\nb", after reading 'a' a literal 'x' rejects '\n'; the error carries 2:1,
+-- the location after the newline
+example :
+    ((run (HState.open [97, 10, 98] none) [.get]).1.s.charPred (· == 120)).2
+    = .ok (.fail (.expected (some ⟨2, 1⟩))) := by rfl
+
+-- a position is not restored correctly by an implementation that forgets to clear eof: without
+-- the `clear()` in set_position the seek fails (sentry) — the model distinguishes the two
+example :
+    let s := (run (HState.open [97] none) [.pos, .get, .get]).1.s
+    (s.is.seekg 0).fail = true ∧ (s.is.clear.seekg 0).fail = false := by decide
+
+end Fcppt.C12
